@@ -9,6 +9,7 @@ func init() {
 		g(c, "c06Follower", c06Follower)
 		g(c, "gQuorumJoint", gQuorumJoint)
 		g(c, "gRoute", gRoute)
+		g(c, "cSnapClear", cSnapClear) // a pending snapshot dropped unwritten leaves commit beyond the log
 	}})
 	register(&PropertyRule{ID: "C02", Explain: "structural necessary conditions of C02 (election safety): see DESIGN.md §5 C02", Run: func(c *Check) {
 		g(c, "gVote", gVote)
@@ -151,6 +152,10 @@ func init() {
 		g(c, "c03Unstable", c03Unstable)
 		g(c, "cStorageSnapshot", cStorageSnapshot)
 		g(c, "sliceRules", sliceRules)
+		// entries handed out (messages, Ready) are never rewritten in place by the storage or the unstable log
+		c.OnlyRules = map[string]bool{"C18.A": true}
+		g(c, "c18Storage", c18Storage)
+		c.OnlyRules = nil
 	}})
 	register(&PropertyRule{ID: "C18", Explain: "structural necessary conditions of C18 (log storage views): see DESIGN.md §5 C18", Run: func(c *Check) {
 		g(c, "c18Storage", c18Storage)
